@@ -64,7 +64,10 @@ def write_cfg(path, spec="Spec", constants=None, invariants=(), view=None, postc
         for k, v in constants.items():
             if isinstance(v, bool):
                 v = "TRUE" if v else "FALSE"
-            lines.append("  %s = %s" % (k, v))
+            if isinstance(v, str) and v.startswith("<-"):
+                lines.append("  %s <- %s" % (k, v[2:].strip()))
+            else:
+                lines.append("  %s = %s" % (k, v))
     if view:
         lines.append("VIEW " + view)
     if invariants:
